@@ -2,7 +2,8 @@
 
 Tie T: T6 (get_tile_array bounds/padding), T7a (tile counts of tile_pixel_matrix: int(np.ceil(n / t))), T7b (tile counts of
 compute_tile_positions_per_frame: (n - 1) // t + 1), T7c (offsets of compute_plane_position_tiled_full), T7d (the two loop
-bodies, the initial values and the range arguments of are_plane_positions_tiled_full), regenerated on every run.
+bodies, the initial values and the range arguments of are_plane_positions_tiled_full), T7e (z origin of a focal plane in
+iter_tiled_full_frame_data; its loop nest, channel lists, call and yield are pinned textually), regenerated on every run.
 Tie C (L0, public functions): the hand-written enumerations around them (Model/Tiling.lean) against
 spatial.tile_pixel_matrix, spatial.compute_tile_positions_per_frame, spatial.get_tile_array,
 spatial.iter_tiled_full_frame_data, utils.compute_plane_position_tiled_full, utils.compute_plane_position_slide_per_frame,
@@ -22,7 +23,7 @@ from types import SimpleNamespace
 import numpy as np
 
 PROP = 'C12'
-TARGETS = ['T6', 'T7a', 'T7b', 'T7c', 'T7d']
+TARGETS = ['T6', 'T7a', 'T7b', 'T7c', 'T7d', 'T7e']
 LEAN_MODULES = ['HdVerif.Props.C12']
 MODEL_MODULES = ['HdVerif.Model.TilingJson']
 NAMESPACE = 'HdVerif.C12'
@@ -42,6 +43,31 @@ MODELLED_NOT_VERIFIED = ['numpy meshgrid / stack / reshape ordering', 'itertools
 
 ORIENTATIONS = [(1, 0, 0, 0, 1, 0), (0, -1, 0, -1, 0, 0), (0, 1, 0, 1, 0, 0), (-1, 0, 0, 0, -1, 0), (0, 0, 1, 1, 0, 0), (0, 1, 0, 0, 0, -1)]
 INEXACT_ORIENTATIONS = [(0.6, 0.8, 0, -0.8, 0.6, 0), (0.8, 0.0, 0.6, 0.0, 1.0, 0.0)]
+
+
+LAYOUTS = ['C', 'F', 'transposed-view', 'strided-view', 'negative-stride', 'read-only']
+
+
+def with_layout(a, layout):
+    """the same values in another memory layout"""
+    a = np.asarray(a)
+    if layout == 'F':
+        return np.asfortranarray(a)
+    if layout == 'transposed-view':
+        return np.ascontiguousarray(np.moveaxis(a, -1, 0)).transpose(*range(1, a.ndim), 0) if a.ndim > 1 else a
+    if layout == 'strided-view':
+        big = np.zeros(tuple(2 * n for n in a.shape), dtype=a.dtype)
+        sl = tuple(slice(0, None, 2) for _ in a.shape)
+        big[sl] = a
+        return big[sl]
+    if layout == 'negative-stride':
+        sl = tuple(slice(None, None, -1) for _ in a.shape)
+        return np.ascontiguousarray(a[sl])[sl]
+    if layout == 'read-only':
+        b = a.copy()
+        b.flags.writeable = False
+        return b
+    return np.ascontiguousarray(a)
 
 
 def grid(R, C, tr, tc):
@@ -127,8 +153,13 @@ def _sizes(ctx, reqs, pending):
         # the grid itself: painted exactly once (validates the oracle's own statement of the grid, cheap)
         if k % 7 == 0 and not paint_ok(R, C, tr, tc, g):
             ctx.fail(case, 'oracle grid does not cover the matrix exactly once (harness error)', site='oracle')
+        # spelling of the arguments: Python / numpy integers, tuple / list / ndarray sequences
+        isp = ('int', 'int', 'np.int64', 'np.int32', 'np.uint8')[k % 5]
+        I = {'int': int, 'np.int64': np.int64, 'np.int32': np.int32, 'np.uint8': np.uint8}[isp]    # noqa: E741
+        ssp = ('tuple', 'list', 'ndarray')[k % 3]
+        S = {'tuple': tuple, 'list': list, 'ndarray': lambda x: np.array(x, dtype=float)}[ssp]
         # ---- tile_pixel_matrix
-        st, val = _fetch(lambda: list(spatial.tile_pixel_matrix(R, C, tr, tc)))
+        st, val = _fetch(lambda: list(spatial.tile_pixel_matrix(I(R), I(C), I(tr), I(tc))))
         ctx.case(helper='tile_pixel_matrix', nontrivial_key=('tpm', R, C, tr, tc) if multi else None,
                  tiles=min(len(g), 50), divides=(R % tr == 0, C % tc == 0))
         if st == 'err':
@@ -142,9 +173,10 @@ def _sizes(ctx, reqs, pending):
         reqs.append(('tileIndexEnum', {'R': R, 'C': C, 'tr': tr, 'tc': tc}))
         pending.append((case, 'tile_pixel_matrix', ('ok', enum) if enum is not None else ('err', val), 'plain'))
         # ---- compute_tile_positions_per_frame
-        st, val = _fetch(spatial.compute_tile_positions_per_frame, tr, tc, R, C, org, ori, sp)
+        st, val = _fetch(spatial.compute_tile_positions_per_frame, I(tr), I(tc), I(R), I(C), S(org), S(ori), S(sp))
         ctx.case(helper='compute_tile_positions_per_frame', nontrivial_key=('ctp', R, C, tr, tc) if multi else None,
-                 orientation=str(ori))
+                 orientation=str(ori), int_spelling=isp, sequence_spelling=ssp, remainder=(min(R % tr, 2), min(C % tc, 2)),
+                 square_tile=(tr == tc))
         offs = None
         if st == 'err':
             ctx.fail(case, {'helper': 'compute_tile_positions_per_frame', 'error': val}, site='compute_tile_positions_per_frame')
@@ -176,8 +208,19 @@ def _sizes(ctx, reqs, pending):
                 variants.append(('reversed', g[::-1]))
             if r.random() < 0.3:
                 variants.append(('duplicated', g + [g[-1]]))
+            # prefix-truncated lists: without the last tile (the largest row AND column position are still present when the
+            # grid has more than one row and column), without the last tile row, a random proper prefix
+            variants.append(('prefix-minus-one', g[:-1]))
+            nC_ = -(-C // tc)
+            if len(g) > nC_:
+                variants.append(('prefix-minus-last-row', g[:len(g) - nC_]))
+            if r.random() < 0.5:
+                variants.append(('prefix-random', g[:r.randint(1, len(g) - 1)]))
+            if r.random() < 0.2:
+                variants.append(('suffix', g[1:]))
+                variants.append(('column-major', sorted(g, key=lambda x: (x[1], x[0]))))
         for name, lst in variants:
-            st, val = _fetch(utils.are_plane_positions_tiled_full, [_pp(a, b) for a, b in lst], tr, tc)
+            st, val = _fetch(utils.are_plane_positions_tiled_full, [_pp(a, b) for a, b in lst], I(tr), I(tc))
             ctx.case(helper='are_plane_positions_tiled_full', variant=name,
                      nontrivial_key=('tf', name, R, C, tr, tc) if multi else None)
             # what the predicate must say: the list is the row-major grid of SOME matrix with these tiles
@@ -237,16 +280,23 @@ def _tile_offsets(ctx, reqs, pending):
     for idx in range(n):
         r = ctx.rng('tile', idx)
         R, C, tr, tc = r.randint(1, 7), r.randint(1, 7), r.randint(1, 6), r.randint(1, 6)
-        M = ctx.np_rng('tilepix', idx).integers(1, 200, size=(R, C), dtype=np.int64)
+        extra = r.choice([(), (), (3,), (2, 2)])          # trailing dimensions are retained
+        M = ctx.np_rng('tilepix', idx).integers(1, 200, size=(R, C) + extra, dtype=np.int64)
+        layout = r.choice(LAYOUTS)
+        Ml = with_layout(M, layout)
+        isp = r.choice(['int', 'np.int64', 'np.int32', 'np.uint8'])
+        I = {'int': int, 'np.int64': np.int64, 'np.int32': np.int32, 'np.uint8': np.uint8}[isp]    # noqa: E741
+        snapshot = M.copy()
         for ro in range(0, R + 2):
             for co in range(0, C + 2):
-                st, t = _fetch(spatial.get_tile_array, M, ro, co, tr, tc)
+                st, t = _fetch(spatial.get_tile_array, Ml, I(ro), I(co), I(tr), I(tc))
                 valid = 1 <= ro <= R and 1 <= co <= C
-                ctx.case(helper='get_tile_array/offset', offset_valid=valid,
+                ctx.case(helper='get_tile_array/offset', offset_valid=valid, layout=layout, extra_dims=len(extra), int_spelling=isp,
                          nontrivial_key=('tile', R, C, tr, tc, ro, co) if valid and (ro - 1 + tr > R or co - 1 + tc > C) else None)
-                case = {'sizes': [R, C, tr, tc], 'row_offset': ro, 'column_offset': co, 'tile_idx': idx}
+                case = {'sizes': [R, C, tr, tc], 'row_offset': ro, 'column_offset': co, 'tile_idx': idx, 'layout': layout,
+                        'extra_dims': list(extra), 'int_spelling': isp}
                 if valid:
-                    want = np.zeros((tr, tc), dtype=np.int64)
+                    want = np.zeros((tr, tc) + extra, dtype=np.int64)
                     sub = M[ro - 1:ro - 1 + tr, co - 1:co - 1 + tc]
                     want[:sub.shape[0], :sub.shape[1]] = sub
                     if st == 'err' or not np.array_equal(np.asarray(t), want):
@@ -255,8 +305,15 @@ def _tile_offsets(ctx, reqs, pending):
                 elif st == 'ok':
                     ctx.fail(case, {'helper': 'get_tile_array', 'what': 'offset outside the matrix accepted', 'shape': list(np.asarray(t).shape)},
                              site='get_tile_array')
-                reqs.append(('getTileArray', {'M': M.tolist(), 'R': R, 'C': C, 'ro': ro, 'co': co, 'tr': tr, 'tc': tc}))
-                pending.append((case, 'get_tile_array', ('ok', {'shape': list(np.asarray(t).shape), 'data': np.asarray(t).tolist()}) if st == 'ok' else ('err', t), 'plain'))
+                # model: pixels are opaque, so the trailing dimensions are folded into one integer per pixel
+                def fold(a):
+                    a = np.asarray(a, dtype=np.int64)
+                    a = a.reshape(a.shape[:2] + (-1,))
+                    return sum(a[..., q] * (256 ** q) for q in range(a.shape[2]))
+                reqs.append(('getTileArray', {'M': fold(M).tolist(), 'R': R, 'C': C, 'ro': ro, 'co': co, 'tr': tr, 'tc': tc}))
+                pending.append((case, 'get_tile_array', ('ok', {'shape': list(np.asarray(t).shape[:2]), 'data': fold(t).tolist()}) if st == 'ok' else ('err', t), 'plain'))
+        if not np.array_equal(M, snapshot) or not np.array_equal(Ml, snapshot):
+            ctx.fail({'sizes': [R, C, tr, tc], 'tile_idx': idx, 'layout': layout}, 'get_tile_array modified the array handed in', site='get_tile_array')
 
 
 # ------------------------------------------------------------------------------------------ TILED_FULL datasets
@@ -296,8 +353,17 @@ def _datasets(ctx, reqs, pending):
         g = grid(R, C, tr, tc)
         case = {'dataset': {'idx': idx, 'sizes': [R, C, tr, tc], 'kind': kind, 'channels': len(channels), 'planes': planes, 'sbs': sbs,
                             'geometry': [list(org), list(ori), list(sp)]}}
+        import copy as _copy
+        before = _copy.deepcopy(ds)
         st, val = _fetch(lambda: list(spatial.iter_tiled_full_frame_data(ds)))
+        st_again, val_again = _fetch(lambda: list(spatial.iter_tiled_full_frame_data(ds)))
+        if st == 'ok' and (st_again != 'ok' or val_again != val):
+            ctx.fail({'dataset_idx': idx}, 'iter_tiled_full_frame_data gives another result when called again on the same dataset',
+                     site='iter_tiled_full_frame_data')
+        if ds != before:
+            ctx.fail({'dataset_idx': idx}, 'iter_tiled_full_frame_data modified the dataset', site='iter_tiled_full_frame_data')
         ctx.case(helper='iter_tiled_full_frame_data', kind=kind, channels=len(channels), planes=planes, exact_geometry=exact,
+                 spacing_between_slices=str(sbs), anisotropic=(sp[0] != sp[1]), square_tile=(tr == tc),
                  nontrivial_key=('iter', idx) if len(g) > 1 else None)
         if st == 'err':
             ctx.fail(case, {'helper': 'iter_tiled_full_frame_data', 'error': val}, site='iter_tiled_full_frame_data')
@@ -387,8 +453,22 @@ def _datasets(ctx, reqs, pending):
                 pending.append((c4, 'compute_plane_position_tiled_full', impl, 'ppt'))
 
 
+def _model(ctx, reqs):
+    """the driver is an interpreted `lean --run` over oleans other builds may be replacing at that moment: retry before giving up"""
+    import time
+    for attempt in range(3):
+        answers = ctx.model(reqs)
+        if answers is not None:
+            return answers
+        ctx.note(f'model driver failed (attempt {attempt + 1}); retrying')
+        time.sleep(15 * (attempt + 1))
+        ctx.model_available = True
+    ctx.model_available = False
+    return None
+
+
 def _settle(ctx, reqs, pending):
-    answers = ctx.model(reqs)
+    answers = _model(ctx, reqs)
     if answers is None:
         return
     for (case, what, impl, mode), ans in zip(pending, answers):
